@@ -34,6 +34,8 @@ func (db *DB) basicImport(ctx context.Context, filepath string) (err error) {
 	}()
 
 	d := json.NewDecoder(bufio.NewReader(f))
+	// Numbers must not be decoded through float64, large integers would silently lose precision.
+	d.UseNumber()
 
 	t, err := d.Token()
 	if err != nil {
@@ -83,6 +85,7 @@ func (db *DB) basicImport(ctx context.Context, filepath string) (err error) {
 
 			delete(docMap, request.DocIDFieldName)
 			delete(docMap, request.NewDocIDFieldName)
+			normalizeJSONNumbers(docMap)
 
 			doc, err := client.NewDocFromMap(docMap, col.Definition())
 			if err != nil {
@@ -113,6 +116,30 @@ func (db *DB) basicImport(ctx context.Context, filepath string) (err error) {
 	}
 
 	return nil
+}
+
+// normalizeJSONNumbers replaces, in place, every [json.Number] of the given decoded JSON value
+// with an int64 if it is an integer that fits, and with a float64 otherwise.
+func normalizeJSONNumbers(value any) any {
+	switch typedValue := value.(type) {
+	case json.Number:
+		if i, err := typedValue.Int64(); err == nil {
+			return i
+		}
+		if f, err := typedValue.Float64(); err == nil {
+			return f
+		}
+		return typedValue.String()
+	case map[string]any:
+		for k, v := range typedValue {
+			typedValue[k] = normalizeJSONNumbers(v)
+		}
+	case []any:
+		for i, v := range typedValue {
+			typedValue[i] = normalizeJSONNumbers(v)
+		}
+	}
+	return value
 }
 
 func (db *DB) basicExport(ctx context.Context, config *client.BackupConfig) (err error) {
